@@ -346,10 +346,24 @@ class WARCRecorder(object):
 
             raise
 
+        cdx_before_offset = None
+
         try:
             with open_func(self._warc_filename, mode='ab') as out_file:
                 for data in record:
                     out_file.write(data)
+
+            # The CDX line belongs to the append: if it cannot be written,
+            # the record is taken back as well.
+            if self._cdx_filename:
+                after_offset = os.path.getsize(self._warc_filename)
+                cdx_before_offset = os.path.getsize(self._cdx_filename)
+                raw_file_offset = before_offset
+                raw_file_record_size = after_offset - before_offset
+
+                self._write_cdx_field(
+                    record, raw_file_record_size, raw_file_offset
+                )
         except (OSError, IOError) as error:
             _logger.info(
                 _('Rolling back file {filename} to length {length}.'),
@@ -358,19 +372,13 @@ class WARCRecorder(object):
             with open(self._warc_filename, mode='ab') as out_file:
                 out_file.truncate(before_offset)
 
+            if cdx_before_offset is not None:
+                with open(self._cdx_filename, mode='ab') as out_file:
+                    out_file.truncate(cdx_before_offset)
+
             raise error
         finally:
             os.remove(journal_filename)
-
-        after_offset = os.path.getsize(self._warc_filename)
-
-        if self._cdx_filename:
-            raw_file_offset = before_offset
-            raw_file_record_size = after_offset - before_offset
-
-            self._write_cdx_field(
-                record, raw_file_record_size, raw_file_offset
-            )
 
     def close(self):
         '''Close the WARC file and clean up any logging handlers.'''
